@@ -1,6 +1,7 @@
 from __future__ import division, print_function
 import numpy as np
 from bct.utils import BCTParamError, normalize, get_rng
+from bct.utils.miscellaneous_utilities import _VERIF_ON, _verif_event
 from ..due import BibTeX, due
 from ..citations import (
     LEICHT2008, REICHARDT2006, GOOD2010, SUN2008, RUBINOV2011,
@@ -206,6 +207,8 @@ def community_louvain(W, gamma=1, ci=None, B='modularity', seed=None):
                     Hm[ma] -= H[u]  # change module strengths
 
                     Mb[u] = mb + 1
+                    if _VERIF_ON:
+                        _verif_event('move', fn='community_louvain', node=u, src=ma, dst=mb, gain=max_dq, labels=Mb, nodemap=(None if first_iteration else ci))
 
         _, Mb = np.unique(Mb, return_inverse=True)
         Mb += 1
@@ -673,6 +676,8 @@ def modularity_finetune_dir(W, ci=None, gamma=1, seed=None):
                 km_i[ma] -= k_i[u]
 
                 ci[u] = mb + 1  # reassign module
+                if _VERIF_ON:
+                    _verif_event('move', fn='modularity_finetune_dir', node=u, src=ma, dst=mb, gain=max_dq, labels=ci, nodemap=None)
                 flag = True
 
     _, ci = np.unique(ci, return_inverse=True)
@@ -771,6 +776,8 @@ def modularity_finetune_und(W, ci=None, gamma=1, seed=None):
                 km[ma] -= k[u]
 
                 ci[u] = mb + 1
+                if _VERIF_ON:
+                    _verif_event('move', fn='modularity_finetune_und', node=u, src=ma, dst=mb, gain=max_dq, labels=ci, nodemap=None)
                 flag = True
 
     _, ci = np.unique(ci, return_inverse=True)
@@ -905,6 +912,8 @@ def modularity_finetune_und_sign(W, qtype='sta', gamma=1, ci=None, seed=None):
                 # print h,max_dq,mb,u
                 flag = True
                 ci[u] = mb + 1  # reassign module
+                if _VERIF_ON:
+                    _verif_event('move', fn='modularity_finetune_und_sign', node=u, src=ma, dst=mb, gain=max_dq, labels=ci, nodemap=None)
 
                 Knm0[:, mb] += W0[:, u]
                 Knm0[:, ma] -= W0[:, u]
@@ -1025,6 +1034,8 @@ def modularity_louvain_dir(W, gamma=1, hierarchy=False, seed=None):
                     km_i[ma] -= k_i[u]
 
                     m[u] = mb + 1  # reassign module
+                    if _VERIF_ON:
+                        _verif_event('move', fn='modularity_louvain_dir', node=u, src=ma, dst=mb, gain=max_dq, labels=m, nodemap=ci[h])
                     flag = True
 
         _, m = np.unique(m, return_inverse=True)
@@ -1154,6 +1165,8 @@ def modularity_louvain_und(W, gamma=1, hierarchy=False, seed=None):
                     Km[ma] -= k[i]
 
                     m[i] = j + 1  # reassign module
+                    if _VERIF_ON:
+                        _verif_event('move', fn='modularity_louvain_und', node=i, src=ma, dst=j, gain=max_dq, labels=m, nodemap=ci[h])
                     flag = True
 
         _, m = np.unique(m, return_inverse=True)  # new module assignments
@@ -1324,6 +1337,8 @@ def modularity_louvain_und_sign(W, gamma=1, qtype='sta', seed=None):
                     km1[ma] -= kn1[u]
 
                     m[u] = mb + 1  # reassign module
+                    if _VERIF_ON:
+                        _verif_event('move', fn='modularity_louvain_und_sign', node=u, src=ma, dst=mb, gain=max_dQ, labels=m, nodemap=ci[h])
 
         h += 1
         ci.append(np.zeros((n,)))
